@@ -304,6 +304,26 @@ def hasData (s : US D) : US D :=
   | none => { s with new := some [] }
   | _ => s
 
+/-- a directory that exists and is not empty -/
+def nonEmptyDir {α : Type} : Option (List α) → Bool
+  | some l => !l.isEmpty
+  | none => false
+
+/-- the ANSWER of `store.HasData` as far as the snapshot directories go (the raft log is not
+modelled): a snapshot listed in wsnapshots, or — since the fix — a non-empty old-format directory.
+"no" lets -auto-restore load its file over the node. -/
+def hasDataAnswer (s : US D) : Bool :=
+  nonEmptyDir s.old7 || nonEmptyDir s.old8 ||
+  (match s.new with
+   | some l => l.any fun x => x.mt.isSome && x.db.isSome
+   | none => false)
+
+/-- the answer before the fix: only wsnapshots was looked at -/
+def hasDataAnswerOld (s : US D) : Bool :=
+  match s.new with
+  | some l => l.any fun x => x.mt.isSome && x.db.isSome
+  | none => false
+
 def u810 (s : US D) : Except String (US D) := u810Core (rmEmptyNew s)
 
 inductive Cut810 (D : Type) where
